@@ -18,6 +18,7 @@ import (
 	"pgregory.net/rapid"
 
 	"verifharness/internal/gen"
+	"verifharness/internal/masks"
 	"verifharness/internal/ops"
 	"verifharness/internal/subj"
 	"verifharness/internal/vf"
@@ -161,7 +162,9 @@ type machine struct {
 	nontrivial bool
 }
 
-func newMachine(h Header) *machine { return &machine{w1: buildWorld(h.Points), w2: buildWorld(h.Points)} }
+func newMachine(h Header) *machine {
+	return &machine{w1: buildWorld(h.Points), w2: buildWorld(h.Points)}
+}
 
 func compareRes(base string, op ops.Op, r1, r2 ops.Res, point1, point2 string) (string, string) {
 	if r1.Hung || r1.Panic != "" || r2.Hung || r2.Panic != "" {
@@ -588,6 +591,20 @@ func TestReplayAll(t *testing.T) {
 			return "", ""
 		})
 	})
+	t.Run("crossfault", func(t *testing.T) {
+		vf.Replay(t, "crossfault", func(steps []json.RawMessage) (string, string) {
+			for _, raw := range steps {
+				var c CrossCase
+				if err := json.Unmarshal(raw, &c); err != nil {
+					return "bad-replay", err.Error()
+				}
+				if sig, msg, _, _ := checkCross(c); sig != "" {
+					return sig, msg
+				}
+			}
+			return "", ""
+		})
+	})
 	t.Run("addmount", func(t *testing.T) {
 		vf.Replay(t, "addmount", func(steps []json.RawMessage) (string, string) {
 			mfs, err := mount.NewFS(subj.NewMem())
@@ -628,6 +645,153 @@ func knownSig(m *machine, op ops.Op) string {
 	return ""
 }
 
-func registerProbes() {}
+func registerProbes() { registerCrossProbe() }
 
 var _ = os.O_RDONLY
+
+// ------------------------------------------------------------------ cross-mount rename under faults
+
+// CrossCase: a regular file in mount "a" is renamed to a path in mount "b" whose FS fails its i-th primitive call.
+type CrossCase struct {
+	Size       int  `json:"size"`
+	DestExists bool `json:"dest_exists"`
+	FailAt     int  `json:"fail_at"` // 0 = fault-free
+	FailSource bool `json:"fail_source"`
+}
+
+func crossWorld(c CrossCase) (mfs *mount.FS, src, dst hackpadfs.FS, srcHooks, dstHooks *masks.Hooks) {
+	root := subj.NewMem()
+	must(root.Mkdir("a", 0o755))
+	must(root.Mkdir("b", 0o755))
+	src, dst = subj.NewMem(), subj.NewMem()
+	data := make([]byte, c.Size)
+	for i := range data {
+		data[i] = byte('a' + i%26)
+	}
+	must(hackpadfs.WriteFullFile(src, "f", data, 0o600))
+	if c.DestExists {
+		must(hackpadfs.WriteFullFile(dst, "g", []byte("old destination contents"), 0o644))
+	}
+	srcHooks, dstHooks = &masks.Hooks{}, &masks.Hooks{}
+	full := []string{"OpenFileFS", "MkdirFS", "RemoveFS", "RenameFS"}
+	m, err := mount.NewFS(root)
+	must(err)
+	must(m.AddMount("a", masks.New(src, full, srcHooks)))
+	must(m.AddMount("b", masks.New(dst, full, dstHooks)))
+	return m, src, dst, srcHooks, dstHooks
+}
+
+func checkCross(c CrossCase) (string, string, int, int) {
+	base := "C06 cross-fault"
+	mfs, src, dst, sh, dh := crossWorld(c)
+	if c.FailSource {
+		sh.FailAt = c.FailAt
+	} else {
+		dh.FailAt = c.FailAt
+	}
+	srcBefore, _ := ops.SnapFS(src)
+	dstBefore, _ := ops.SnapFS(dst)
+	var err error
+	pan, hung := vf.Guard(func() { err = mfs.Rename("a/f", "b/g") })
+	if pan != "" || hung {
+		return base + ":crash", fmt.Sprintf("%+v: %s hung=%v", c, pan, hung), sh.Calls, dh.Calls
+	}
+	srcAfter, _ := ops.SnapFS(src)
+	dstAfter, _ := ops.SnapFS(dst)
+	fired := sh.Fired + dh.Fired
+	if err != nil {
+		if d := ops.Diff(srcBefore, srcAfter, "before", "after"); d != "" {
+			return base + ":failed-but-source-changed:" + strings.ReplaceAll(fired, " ", ""), fmt.Sprintf("%+v: Rename failed (%v, fault at %q) but the source mount changed: %s", c, err, fired, d), sh.Calls, dh.Calls
+		}
+		if d := ops.Diff(dstBefore, dstAfter, "before", "after"); d != "" {
+			return base + ":failed-but-destination-changed:" + strings.ReplaceAll(fired, " ", ""), fmt.Sprintf("%+v: Rename failed (%v, fault at %q) but the destination mount changed: %s", c, err, fired, d), sh.Calls, dh.Calls
+		}
+		return "", "", sh.Calls, dh.Calls
+	}
+	want := srcBefore["f"]
+	if _, still := srcAfter["f"]; still {
+		return base + ":succeeded-but-source-remains", fmt.Sprintf("%+v: Rename returned nil (fault at %q) but the source still exists", c, fired), sh.Calls, dh.Calls
+	}
+	if got := dstAfter["g"]; got != want {
+		return base + ":succeeded-but-destination-wrong", fmt.Sprintf("%+v: Rename returned nil (fault at %q): destination is %v, source was %v", c, fired, got, want), sh.Calls, dh.Calls
+	}
+	return "", "", sh.Calls, dh.Calls
+}
+
+// crossLogs returns the primitive calls of the fault-free rename on the source and destination mounts.
+func crossLogs(c CrossCase) (srcLog, dstLog []string) {
+	mfs, _, _, sh, dh := crossWorld(c)
+	_ = mfs.Rename("a/f", "b/g")
+	return sh.Log, dh.Log
+}
+
+func TestCrossFault(t *testing.T) {
+	vf.Check(t, "crossfault", func(rt *rapid.T, rec *vf.Rec) {
+		c := CrossCase{Size: rapid.SampledFrom([]int{0, 1, 100, 5000, 40000}).Draw(rt, "size"), DestExists: rapid.Bool().Draw(rt, "destexists")}
+		rec.Step(c)
+		sig, msg, sCalls, dCalls := checkCross(c)
+		if sig != "" {
+			rec.Failf(rt, sig, "%s", msg)
+		}
+		_, _, _, shDry, dhDry := crossWorld(c)
+		_ = shDry
+		_ = dhDry
+		sLog, dLog := crossLogs(c)
+		rec.NonTrivial()
+		rec.Count("fault-sites", sCalls+dCalls)
+		for i := 1; i <= dCalls; i++ {
+			fc := c
+			fc.FailAt = i
+			if k := knownCross(fc, dLog[i-1]); k != "" {
+				rec.Excluded(k)
+				continue
+			}
+			if sig, msg, _, _ := checkCross(fc); sig != "" {
+				rec.Step(fc)
+				rec.Failf(rt, sig, "%s", msg)
+			}
+		}
+		for i := 1; i <= sCalls; i++ {
+			fc := c
+			fc.FailAt, fc.FailSource = i, true
+			if k := knownCross(fc, map[bool]string{true: "Open", false: sLog[i-1]}[sLog[i-1] == "Open" || sLog[i-1] == "File.Stat"]); k != "" {
+				rec.Excluded(k)
+				continue
+			}
+			if sig, msg, _, _ := checkCross(fc); sig != "" {
+				rec.Step(fc)
+				rec.Failf(rt, sig, "%s", msg)
+			}
+		}
+	})
+}
+
+const knownCrossSig = "C06:cross-rename-fault-loses-existing-destination"
+
+// knownCross: with an existing destination, any failure after the destination was opened (and thereby truncated) cannot be
+// undone by the copy-then-remove implementation.
+func knownCross(c CrossCase, site string) string {
+	if !c.DestExists || !vf.Known(knownCrossSig) {
+		return ""
+	}
+	switch site {
+	case "OpenFile", "Open", "Mkdir": // before the destination was truncated
+		return ""
+	}
+	return knownCrossSig
+}
+
+func registerCrossProbe() {
+	vf.RegisterProbe(knownCrossSig, func() (bool, string) {
+		c := CrossCase{Size: 100, DestExists: true}
+		_, _, _, d := checkCross(c)
+		for i := 1; i <= d; i++ {
+			fc := c
+			fc.FailAt = i
+			if sig, msg, _, _ := checkCross(fc); strings.Contains(sig, "failed-but-destination-changed") {
+				return true, msg
+			}
+		}
+		return false, "every destination fault leaves the existing destination intact"
+	})
+}
